@@ -3,6 +3,7 @@ import I2N.Lemmas.TravLoc
 import I2N.Lemmas.TravProgress
 import I2N.Lemmas.TravLocExact
 import I2N.Model.TravMon
+import I2N.Lemmas.GenLoc
 /-!
 # C08 — Tests run only on their own worker and are told where their setup lives
 -/
@@ -546,5 +547,49 @@ theorem foreign_copy_request_goes_to_foreign_pool :
 /-- non-vacuity of `netOf_of_relevant`: in `gTwo` (ids `net1`, `net2`) `net2` cares for its copy of `b` (node 3), which
 is its own, and addresses its own pool -/
 example : gTwo.netOf 3 1 = 1 := netOf_of_relevant gTwo 3 1 (by decide) (by decide) (by decide)
+
+end I2N.Props.C08
+
+/-! ## Translator tie: `shared_result_worker_ids` is the Python source (`harness/pygen_pxready.py`)
+
+`Extracted/GenLoc.lean` is regenerated on every run from the CURRENT source of the property
+`TestNode.shared_result_worker_ids` (the workers whose pools `pull_locations` names): the loop over the shared results, the
+`continue` for every status but `PASS`, the first worker id that is a SUBSTRING of the result's name, `add` + `break`. -/
+namespace I2N.Props.C08
+open I2N.Trav
+open I2N.Extracted.GenLoc
+
+/-- **The hand written `sharedResultWorkerIds` is the Python source of `shared_result_worker_ids`**, as sets: the Python
+returns a `set` of worker ids (the generated list stands for its elements; a set has no order and no repetitions), the
+model a duplicate-free list of worker indices; the ids of the model's workers are exactly the elements of the Python's set.
+For every graph (any number of workers, also with ids that are substrings of one another or equal), state and node.
+No hypotheses.  Atoms: `self.shared_results` = `sharedResults`, the ids of `TestSwarm.run_swarms` in swarm / worker order =
+`g.workers.map (·.id)`. -/
+theorem sharedResultWorkerIds_matches_source (g : Graph) (s : State) (n : Nat) (x : String) :
+    x ∈ genSharedResultWorkerIds (sharedResults g s n) (g.workers.map (·.id)) ↔
+      x ∈ (sharedResultWorkerIds g s n).map (fun w => (g.worker w).id) :=
+  I2N.GenLoc.mem_genSharedResultWorkerIds g s n x
+
+/-- the locations `pullLocations` adds for a parent `p` are the shared pool and one `<id>:/pool/swarm` per element of the
+Python's set (`workerLoc g v = id v ++ ":/pool/swarm"`): the list the model folds over names exactly the ids generated
+from the source -/
+theorem pull_locations_names_source_ids (g : Graph) (s : State) (p : Nat) (loc : String) :
+    loc ∈ (sharedResultWorkerIds g s p).map (workerLoc g) ↔
+      ∃ x ∈ genSharedResultWorkerIds (sharedResults g s p) (g.workers.map (·.id)), loc = x ++ ":/pool/swarm" := by
+  constructor
+  · intro h
+    obtain ⟨w, hw, rfl⟩ := List.mem_map.1 h
+    exact ⟨(g.worker w).id, (sharedResultWorkerIds_matches_source g s p _).2 (List.mem_map.2 ⟨w, hw, rfl⟩), rfl⟩
+  · rintro ⟨x, hx, rfl⟩
+    obtain ⟨w, hw, rfl⟩ := List.mem_map.1 ((sharedResultWorkerIds_matches_source g s p _).1 hx)
+    exact List.mem_map.2 ⟨w, hw, rfl⟩
+
+/-- the generated definition computes: only PASS results count, the FIRST id contained in the name wins (`net1` before
+`net11`: the substring identity F4), a result naming no worker adds nothing -/
+example :
+    genSharedResultWorkerIds
+      [{ name := "a.net11", status := "PASS", uid := "1" }, { name := "a.net2", status := "FAIL", uid := "2" },
+       { name := "b.net2", status := "PASS", uid := "3" }, { name := "c", status := "PASS", uid := "4" }]
+      ["net1", "net11", "net2"] = ["net1", "net2"] := by decide
 
 end I2N.Props.C08
